@@ -87,6 +87,7 @@ theorem down_transits (l : List ASE) : ∀ (prevE last : ASE) (β : Nat),
         simpa [nextSeg, hopOf] using hrec)
     simpa [firstOf, sig, extractBeta, downTrace, outSide, hopOf, hf1n, hf1i] using hcons
 
+omit hWF hUp hSR in
 /-- metadata interfaces of the ASes after the first one of a down traversal -/
 theorem ifaces_down_tail (mid : List ASE) (last : ASE) (hm : ∀ y ∈ mid, y.hop.cEg ≠ 0)
     (hl : last.hop.cEg = 0) :
@@ -97,24 +98,90 @@ theorem ifaces_down_tail (mid : List ASE) (last : ASE) (hm : ∀ y ∈ mid, y.ho
   | nil => simp [firstOf, downTrace, hl]
   | cons y ys ih =>
     have hy := hm y (by simp)
-    have := ih (fun z hz => hm z (by simp [hz]))
-    simp only [List.cons_append, List.map_cons, List.flatten_cons, this, firstOf, downTrace]
-    simp [hy]
+    rw [List.cons_append, List.map_cons, List.flatten_cons, ih (fun z hz => hm z (by simp [hz]))]
+    simp [firstOf, downTrace, hy]
+
+omit hWF hUp hSR in
+theorem nd_facts (x : ASE) (mid : List ASE) (last : ASE)
+    (hnd : ((x :: (mid ++ [last])).map (·.ia)).Nodup) :
+    x.ia ≠ last.ia ∧ ∀ e ∈ mid, e.ia ≠ x.ia ∧ e.ia ≠ last.ia := by
+  simp only [List.map_cons, List.map_append, List.map_nil, List.nodup_cons, List.mem_append,
+    List.mem_map, List.mem_cons, List.not_mem_nil, or_false, List.nodup_append] at hnd
+  obtain ⟨h1, h2, h3, h4⟩ := hnd
+  refine ⟨fun h => h1 (Or.inr h), fun e he => ⟨fun h => h1 (Or.inl ⟨e, he, h⟩), ?_⟩⟩
+  intro h
+  exact h4 e.ia ⟨e, he, rfl⟩ last.ia (by simp) h
+
+omit hWF hUp hSR in
+theorem chain_link_last (mid : List ASE) : ∀ (p last : ASE) (β : Nat),
+    Chain mac net core ts β (p :: (mid ++ [last])) → ∃ e, Linked net core e last := by
+  induction mid with
+  | nil => intro p last β hc; simp only [List.nil_append, Chain] at hc; exact ⟨p, hc.2.1⟩
+  | cons m ms ih =>
+    intro p last β hc
+    simp only [List.cons_append, Chain] at hc
+    exact ih m last _ hc.2.2
+
+/-- **the rest of a down segment that ends the path**: the packet has just entered the AS of the
+    entry after `prevE`; the ASes of `mid` hand it on and the AS of `last` delivers it -/
+theorem down_tail_run (prevE : ASE) (mid : List ASE) (last : ASE) (β : Nat)
+    (hc : Chain mac net core ts β (prevE :: (mid ++ [last])))
+    (hdst : dst = last.ia) (hsd : src ≠ dst)
+    (hmid : ∀ e ∈ mid, e.ia ≠ src ∧ e.ia ≠ dst ∧ expired now ts e.hop.exp = false)
+    (hexpl : expired now ts last.hop.exp = false)
+    (before : List Seg) (hb : ∀ s ∈ before, s.hops.length ≠ 1)
+    (done : List Hop) (hdone : done ≠ []) (fuel : Nat) (tr0 : List (Nat × Nat)) :
+    run mac net now src dst (fuel + 1 + mid.length) (firstOf mid last).ia 0
+        (.ext (firstOf mid last).hop.cIn)
+        (mkCur before ⟨true, false, updateSegID β (pfx prevE.hop.mac), ts⟩ done
+          ((mid.map fun e => hopOf e.hop) ++ hopOf last.hop :: []) []) tr0 =
+      .delivered dst (tr0 ++ downTrace mid last)
+        ⟨before, ⟨true, false, extractBeta (updateSegID β (pfx prevE.hop.mac)) (sig mid), ts⟩,
+          done ++ (mid.map fun e => hopOf e.hop), hopOf last.hop, [], []⟩ := by
+  have hT := down_transits mac net now src dst false core ts hWF hUp hSR mid prevE last β hc hmid
+  have hrun := run_transits hT before [] hb (by simp) (by simp) done (hopOf last.hop) [] (fuel + 1) tr0
+    (by simp) (by have := List.length_pos_iff.mpr hdone; simp; omega)
+  simp only [List.length_map] at hrun
+  rw [hrun]
+  -- the last hop: MAC of `last` under the accumulator reached
+  have hcl : Chain mac net core ts (extractBeta (updateSegID β (pfx prevE.hop.mac)) (sig mid)) [last] := by
+    have := chain_drop mac net core ts β (prevE :: mid) [last] (by simpa using hc)
+    simpa [sig, extractBeta] using this
+  simp only [Chain] at hcl
+  -- its ingress interface is not 0: it is the far end of a link
+  have hlast_in : last.hop.cIn ≠ 0 := by
+    obtain ⟨e, f, hf, _, hfn, hfi, _⟩ := chain_link_last mac net core ts mid prevE last β hc
+    obtain ⟨_, _, g, hg, _, _, _⟩ := hWF _ _ _ hf
+    rw [hfn, hfi] at hg
+    exact (hWF _ _ _ hg).1
+  have hstep := last_step mac net now src dst true false false ts
+    (extractBeta (updateSegID β (pfx prevE.hop.mac)) (sig mid)) last.hop.cIn (hopOf last.hop) before
+    (done ++ mid.map fun e => hopOf e.hop) hb (by intro _; cases done <;> simp_all)
+    (by simp [determinePeer]) hsd hlast_in (by simp [inSide, hopOf])
+    (by rw [hdst]; simpa [macOk, lastSeg, hopOf] using hcl.1.symm)
+    (by simpa [hopOf] using hexpl) rfl rfl
+  rw [hdst]
+  rw [hdst] at hstep
+  simp only [mkCur]
+  rw [run_deliver mac net now src last.ia fuel last.ia 0 _ _ _ _ hstep]
+  simp [lastSeg]
 
 /-- **one down segment** (or the part of it from a shortcut AS on): a packet from a host of the
-    AS of entry `x` is forwarded by `x`, every AS of `mid`, and delivered in the AS of `last` -/
+    AS of entry `x` is forwarded by `x`, by every AS of `mid`, and delivered in the AS of `last` -/
 theorem down_segment_run (s0 : Nat) (pre : List ASE) (x : ASE) (mid : List ASE) (last : ASE)
     (hc : Chain mac net core ts s0 (pre ++ x :: (mid ++ [last])))
     (hsrc : src = x.ia) (hdst : dst = last.ia)
     (hnd : ((x :: (mid ++ [last])).map (·.ia)).Nodup)
-    (hexp : ∀ e ∈ x :: (mid ++ [last]), expired now ts e.hop.exp = false) :
-    ∃ cf, run mac net now src dst (2 * (mid.length + 2) + 2) src 0 .host
-        ⟨[], ⟨true, pr, extractBeta s0 (sig pre), ts⟩, [], hopOf x.hop,
+    (hexp : ∀ e ∈ x :: (mid ++ [last]), expired now ts e.hop.exp = false) (fuel : Nat) :
+    run mac net now src dst (fuel + 2 + mid.length) src 0 .host
+        ⟨[], ⟨true, false, extractBeta s0 (sig pre), ts⟩, [], hopOf x.hop,
           (mid ++ [last]).map (fun e => hopOf e.hop), []⟩ [] =
       .delivered dst ((x.ia, x.hop.cEg) :: ((firstOf mid last).ia, (firstOf mid last).hop.cIn) ::
-        downTrace mid last) cf := by
+        downTrace mid last)
+        ⟨[], ⟨true, false,
+            extractBeta (updateSegID (extractBeta s0 (sig pre)) (pfx x.hop.mac)) (sig mid), ts⟩,
+          [hopOf x.hop] ++ mid.map (fun e => hopOf e.hop), hopOf last.hop, [], []⟩ := by
   have hc1 := chain_drop mac net core ts s0 pre _ hc
-  -- facts about x and its link
   have hne : mid ++ [last] = firstOf mid last :: (mid ++ [last]).tail := by
     cases mid <;> simp [firstOf]
   have hc1' := hc1
@@ -123,13 +190,209 @@ theorem down_segment_run (s0 : Nat) (pre : List ASE) (x : ASE) (mid : List ASE) 
   obtain ⟨hmx, hlx, _⟩ := hc1'
   obtain ⟨fx, hfx, _, hfxn, hfxi, hxeg⟩ := hlx
   obtain ⟨_, _, gx, hgx, _, _, _⟩ := hWF _ _ _ hfx
-  -- distinctness
-  have hnd' := hnd
-  simp only [List.map_cons, List.map_append, List.map_nil, List.nodup_cons, List.mem_append,
-    List.mem_map, List.mem_cons, List.not_mem_nil, or_false, List.nodup_append] at hnd'
-  have hsd : src ≠ dst := by
-    rw [hsrc, hdst]; intro h; exact hnd'.1 (Or.inr h.symm ▸ Or.inr rfl)
-  sorry
+  obtain ⟨hxl, hmid⟩ := nd_facts x mid last hnd
+  have hsd : src ≠ dst := by rw [hsrc, hdst]; exact hxl
+  have hstep := first_step mac net now src dst true false ts (extractBeta s0 (sig pre)) (hopOf x.hop)
+    ((mid ++ [last]).map fun e => hopOf e.hop) [] fx (by simp) (by simp) (by simp) hsd
+    (by rw [hsrc]; simpa [macOk, hopOf] using hmx.1.symm)
+    (by simpa [hopOf] using hexp x (by simp)) rfl rfl
+    (by rw [hsrc]; simpa [outSide, hopOf] using hfx) (by simpa [outSide, hopOf] using hxeg)
+    (hUp _ _ _ hfx) (hSR _ _ _ hfx)
+  have hfx' : (net src).iface (outSide true (hopOf x.hop)) = some fx := by
+    rw [hsrc]; simpa [outSide, hopOf] using hfx
+  have h1 : fuel + 2 + mid.length = (fuel + 1 + mid.length) + 1 := by omega
+  rw [h1, run_forward_ext mac net now src dst (fuel + 1 + mid.length) src 0 .host _ _ []
+    (outSide true (hopOf x.hop)) fx gx hstep hfx' (hSR _ _ _ hfx) hgx, hSR _ _ _ hgx]
+  have htail := down_tail_run mac net now src dst core ts hWF hUp hSR x mid last
+    (extractBeta s0 (sig pre)) hc1 hdst hsd
+    (fun e he => ⟨by rw [hsrc]; exact (hmid e he).1, by rw [hdst]; exact (hmid e he).2,
+      hexp e (by simp [he])⟩)
+    (hexp last (by simp)) [] (by simp) [hopOf x.hop] (by simp) fuel
+    ([] ++ [(src, outSide true (hopOf x.hop)), ((firstOf mid last).ia, (firstOf mid last).hop.cIn)])
+  rw [hfxn, hfxi]
+  have e1 : (hopOf x.hop).mac = x.hop.mac := rfl
+  simp only [List.map_append, List.map_cons, List.map_nil, egSeg, if_true, e1] at htail ⊢
+  rw [htail]
+  have e2 : ([] : List (Nat × Nat)) ++ [(src, outSide true (hopOf x.hop)),
+      ((firstOf mid last).ia, (firstOf mid last).hop.cIn)] ++ downTrace mid last =
+      (x.ia, x.hop.cEg) :: ((firstOf mid last).ia, (firstOf mid last).hop.cIn) :: downTrace mid last := by
+    simp [outSide, hopOf, hsrc]
+  rw [e2]
+
+/-- against construction direction: the ASes of `r` (forwarding order) hand the packet on until
+    it reaches `last` -/
+theorem up_transits (r : List ASE) : ∀ (prevE last : ASE) (b : Nat),
+    ChainUp mac net core ts b (prevE :: (r ++ [last])) →
+    (∀ e ∈ r, e.ia ≠ src ∧ e.ia ≠ dst ∧ expired now ts e.hop.exp = false) →
+    Transits mac net now src dst false pr ts (updateSegID b (pfx prevE.hop.mac))
+      (firstOf r last).ia (firstOf r last).hop.cEg (r.map fun e => hopOf e.hop)
+      (extractBeta (updateSegID b (pfx prevE.hop.mac)) (sig r)) last.ia last.hop.cEg
+      (upTrace r last) := by
+  induction r with
+  | nil =>
+    intro prevE last b _ _
+    simpa [firstOf, sig, extractBeta, upTrace] using Transits.nil _ _ _
+  | cons e rest ih =>
+    intro prevE last b hc hprop
+    simp only [List.cons_append, ChainUp] at hc
+    obtain ⟨_, hl0, hc1⟩ := hc
+    -- the link between e (parent side) and prevE (child side)
+    obtain ⟨f0, hf0, hf0lt, _, _, hceg⟩ := hl0
+    have hne : rest ++ [last] = firstOf rest last :: (rest ++ [last]).tail := by
+      cases rest <;> simp [firstOf]
+    have hc1' := hc1
+    rw [hne] at hc1'
+    simp only [ChainUp] at hc1'
+    obtain ⟨hm, hl1, _⟩ := hc1'
+    -- the link between the next AS (parent side) and e (child side)
+    obtain ⟨f1, hf1, hf1lt, hf1n, hf1i, _⟩ := hl1
+    obtain ⟨_, _, g1, hg1, hg1n, hg1i, hopp1⟩ := hWF _ _ _ hf1
+    rw [hf1n, hf1i] at hg1
+    have hcin0 : e.hop.cIn ≠ 0 := (hWF _ _ _ hg1).1
+    obtain ⟨hs, hd, hexp⟩ := hprop e (by simp)
+    have hrec := ih e last (updateSegID b (pfx prevE.hop.mac)) hc1
+      (fun x hx => hprop x (by simp [hx]))
+    have hf1' : (net g1.nbr).iface g1.nbrIf = some f1 := by rw [hg1n, hg1i]; exact hf1
+    have hcons := Transits.cons (mac := mac) (net := net) (now := now) (src := src) (dst := dst)
+      (cd := false) (pr := pr) (ts := ts) (updateSegID b (pfx prevE.hop.mac)) e.ia e.hop.cEg
+      (hopOf e.hop) (rest.map fun e => hopOf e.hop)
+      (extractBeta (updateSegID (updateSegID b (pfx prevE.hop.mac)) (pfx e.hop.mac)) (sig rest))
+      last.ia last.hop.cEg (upTrace rest last) f0 g1 f1
+      hceg (by simp [inSide, hopOf]) hs hd
+      (by simpa [macOk, usedSeg, hopOf] using hm.1.symm)
+      (by simpa [hopOf] using hexp) rfl rfl hf0
+      (by simpa [outSide, hopOf] using hg1) (by simpa [outSide, hopOf] using hcin0)
+      (hUp _ _ _ hg1) (hSR _ _ _ hg1)
+      (ltSame_up core _ _ hf0lt (by rw [← hf1lt]; exact hopp1))
+      hf1' (hSR _ _ _ hf1)
+      (by
+        rw [hg1n, hg1i]
+        simpa [nextSeg, hopOf] using hrec)
+    simpa [firstOf, sig, extractBeta, upTrace, outSide, hopOf, hg1n, hg1i] using hcons
+
+omit hWF hUp hSR in
+theorem chainUp_link_last (r : List ASE) : ∀ (p last : ASE) (b : Nat),
+    ChainUp mac net core ts b (p :: (r ++ [last])) → ∃ e, Linked net core last e := by
+  induction r with
+  | nil => intro p last b hc; simp only [List.nil_append, ChainUp] at hc; exact ⟨p, hc.2.1⟩
+  | cons m ms ih =>
+    intro p last b hc
+    simp only [List.cons_append, ChainUp] at hc
+    exact ih m last _ hc.2.2
+
+omit hWF hUp hSR in
+/-- a `ChainUp` continues after any prefix -/
+theorem chainUp_drop (pre l : List ASE) : ∀ (b : Nat),
+    ChainUp mac net core ts b (pre ++ l) →
+    ChainUp mac net core ts (extractBeta b (sig pre)) l := by
+  induction pre with
+  | nil => intro b hc; simpa [sig, extractBeta] using hc
+  | cons x xs ih =>
+    intro b hc
+    cases hxl : xs ++ l with
+    | nil =>
+      have : l = [] := by cases xs <;> simp_all
+      subst this; simp [ChainUp]
+    | cons y ys =>
+      simp only [List.cons_append, hxl, ChainUp] at hc
+      have := ih (updateSegID b (pfx x.hop.mac)) (by rw [hxl]; exact hc.2.2)
+      simpa [sig, extractBeta] using this
+
+/-- **the rest of an up segment that ends the path** (destination = the AS where the used part of
+    the segment ends) -/
+theorem up_tail_run (prevE : ASE) (r : List ASE) (last : ASE) (b : Nat)
+    (hc : ChainUp mac net core ts b (prevE :: (r ++ [last])))
+    (hdst : dst = last.ia) (hsd : src ≠ dst)
+    (hmid : ∀ e ∈ r, e.ia ≠ src ∧ e.ia ≠ dst ∧ expired now ts e.hop.exp = false)
+    (hexpl : expired now ts last.hop.exp = false)
+    (before : List Seg) (hb : ∀ s ∈ before, s.hops.length ≠ 1)
+    (done : List Hop) (hdone : done ≠ []) (fuel : Nat) (tr0 : List (Nat × Nat)) :
+    run mac net now src dst (fuel + 1 + r.length) (firstOf r last).ia 0
+        (.ext (firstOf r last).hop.cEg)
+        (mkCur before ⟨false, false, updateSegID b (pfx prevE.hop.mac), ts⟩ done
+          ((r.map fun e => hopOf e.hop) ++ hopOf last.hop :: []) []) tr0 =
+      .delivered dst (tr0 ++ upTrace r last)
+        ⟨before, ⟨false, false,
+            updateSegID (extractBeta (updateSegID b (pfx prevE.hop.mac)) (sig r)) (pfx last.hop.mac), ts⟩,
+          done ++ (r.map fun e => hopOf e.hop), hopOf last.hop, [], []⟩ := by
+  have hT := up_transits mac net now src dst false core ts hWF hUp hSR r prevE last b hc hmid
+  have hrun := run_transits hT before [] hb (by simp) (by simp) done (hopOf last.hop) [] (fuel + 1) tr0
+    (by simp) (by have := List.length_pos_iff.mpr hdone; simp; omega)
+  simp only [List.length_map] at hrun
+  rw [hrun]
+  have hcl : ChainUp mac net core ts (extractBeta (updateSegID b (pfx prevE.hop.mac)) (sig r)) [last] := by
+    have := chainUp_drop mac net core ts (prevE :: r) [last] b (by simpa using hc)
+    simpa [sig, extractBeta] using this
+  simp only [ChainUp] at hcl
+  have hlast_eg : last.hop.cEg ≠ 0 := by
+    obtain ⟨e, f, _, _, _, _, h0⟩ := chainUp_link_last mac net core ts r prevE last b hc
+    exact h0
+  have hstep := last_step mac net now src dst false false false ts
+    (extractBeta (updateSegID b (pfx prevE.hop.mac)) (sig r)) last.hop.cEg (hopOf last.hop) before
+    (done ++ r.map fun e => hopOf e.hop) hb (by intro _; cases done <;> simp_all)
+    (by simp [determinePeer]) hsd hlast_eg (by simp [inSide, hopOf])
+    (by rw [hdst]; simpa [macOk, lastSeg, hopOf] using hcl.1.symm)
+    (by simpa [hopOf] using hexpl) rfl rfl
+  rw [hdst]
+  rw [hdst] at hstep
+  simp only [mkCur]
+  rw [run_deliver mac net now src last.ia fuel last.ia 0 _ _ _ _ hstep]
+  simp [lastSeg, hopOf]
+
+/-- **one up segment** (up to a shortcut AS): a packet from a host of the AS of the last entry
+    `top` is forwarded by `top`, by every AS of `r` (forwarding order), and delivered in the AS of
+    `x`, the entry where the used part of the segment ends -/
+theorem up_segment_run (b : Nat) (top : ASE) (r : List ASE) (x : ASE)
+    (hc : ChainUp mac net core ts b (top :: (r ++ [x])))
+    (hsrc : src = top.ia) (hdst : dst = x.ia)
+    (hnd : ((top :: (r ++ [x])).map (·.ia)).Nodup)
+    (hexp : ∀ e ∈ top :: (r ++ [x]), expired now ts e.hop.exp = false) (fuel : Nat) :
+    run mac net now src dst (fuel + 2 + r.length) src 0 .host
+        ⟨[], ⟨false, false, updateSegID b (pfx top.hop.mac), ts⟩, [], hopOf top.hop,
+          (r ++ [x]).map (fun e => hopOf e.hop), []⟩ [] =
+      .delivered dst ((top.ia, top.hop.cIn) :: ((firstOf r x).ia, (firstOf r x).hop.cEg) ::
+        upTrace r x)
+        ⟨[], ⟨false, false,
+            updateSegID (extractBeta (updateSegID b (pfx top.hop.mac)) (sig r)) (pfx x.hop.mac), ts⟩,
+          [hopOf top.hop] ++ r.map (fun e => hopOf e.hop), hopOf x.hop, [], []⟩ := by
+  have hne : r ++ [x] = firstOf r x :: (r ++ [x]).tail := by
+    cases r <;> simp [firstOf]
+  have hc' := hc
+  rw [hne] at hc'
+  simp only [ChainUp] at hc'
+  obtain ⟨hmt, hlt, _⟩ := hc'
+  obtain ⟨f1, hf1, _, hf1n, hf1i, _⟩ := hlt
+  obtain ⟨_, _, g1, hg1, hg1n, hg1i, _⟩ := hWF _ _ _ hf1
+  rw [hf1n, hf1i] at hg1
+  have hcin0 : top.hop.cIn ≠ 0 := (hWF _ _ _ hg1).1
+  have hf1' : (net g1.nbr).iface g1.nbrIf = some f1 := by rw [hg1n, hg1i]; exact hf1
+  obtain ⟨hxl, hmid⟩ := nd_facts top r x hnd
+  have hsd : src ≠ dst := by rw [hsrc, hdst]; exact hxl
+  have hstep := first_step mac net now src dst false false ts (updateSegID b (pfx top.hop.mac))
+    (hopOf top.hop) ((r ++ [x]).map fun e => hopOf e.hop) [] g1 (by simp) (by simp) (by simp) hsd
+    (by rw [hsrc]; simpa [macOk, hopOf] using hmt.1.symm)
+    (by simpa [hopOf] using hexp top (by simp)) rfl rfl
+    (by rw [hsrc]; simpa [outSide, hopOf] using hg1) (by simpa [outSide, hopOf] using hcin0)
+    (hUp _ _ _ hg1) (hSR _ _ _ hg1)
+  have hg1' : (net src).iface (outSide false (hopOf top.hop)) = some g1 := by
+    rw [hsrc]; simpa [outSide, hopOf] using hg1
+  have h1 : fuel + 2 + r.length = (fuel + 1 + r.length) + 1 := by omega
+  rw [h1, run_forward_ext mac net now src dst (fuel + 1 + r.length) src 0 .host _ _ []
+    (outSide false (hopOf top.hop)) g1 f1 hstep hg1' (hSR _ _ _ hg1) hf1', hSR _ _ _ hf1]
+  have htail := up_tail_run mac net now src dst core ts hWF hUp hSR top r x b hc hdst hsd
+    (fun e he => ⟨by rw [hsrc]; exact (hmid e he).1, by rw [hdst]; exact (hmid e he).2,
+      hexp e (by simp [he])⟩)
+    (hexp x (by simp)) [] (by simp) [hopOf top.hop] (by simp) fuel
+    ([] ++ [(src, outSide false (hopOf top.hop)), ((firstOf r x).ia, (firstOf r x).hop.cEg)])
+  rw [hg1n, hg1i]
+  simp only [List.map_append, List.map_cons, List.map_nil, egSeg, Bool.false_eq_true, if_false]
+    at htail ⊢
+  rw [htail]
+  have e2 : ([] : List (Nat × Nat)) ++ [(src, outSide false (hopOf top.hop)),
+      ((firstOf r x).ia, (firstOf r x).hop.cEg)] ++ upTrace r x =
+      (top.ia, top.hop.cIn) :: ((firstOf r x).ia, (firstOf r x).hop.cEg) :: upTrace r x := by
+    simp [outSide, hopOf, hsrc]
+  rw [e2]
 
 end
 
